@@ -3,7 +3,7 @@
 use fidget_core::render::{ImageSize, VoxelSize};
 use nalgebra::{
     Const, DefaultAllocator, DimNameAdd, DimNameSum, Matrix3, Matrix4, OMatrix,
-    OPoint, OVector, Point2, Point3, U1, Vector2, Vector3,
+    OPoint, Point2, Point3, U1, Vector2, Vector3,
     allocator::Allocator,
 };
 use serde::{Deserialize, Serialize};
@@ -113,8 +113,6 @@ impl View2 {
         let initial_mat = self.world_to_model();
         TranslateHandle {
             start: initial_mat.transform_point(&start),
-            initial_mat,
-            initial_center: self.center,
         }
     }
 
@@ -124,7 +122,10 @@ impl View2 {
         h: &TranslateHandle<2>,
         pos: Point2<f32>,
     ) -> bool {
-        let next_center = h.center(pos);
+        // Use the *current* transform, so that the grabbed model point stays
+        // under the cursor even if the view was zoomed since `begin_translate`
+        let pos_model = self.transform_point(&pos);
+        let next_center = self.center - (pos_model - h.start);
         let changed = next_center != self.center;
         self.center = next_center;
         changed
@@ -224,8 +225,6 @@ impl View3 {
         let initial_mat = self.world_to_model();
         TranslateHandle {
             start: initial_mat.transform_point(&start),
-            initial_mat,
-            initial_center: self.center,
         }
     }
 
@@ -256,7 +255,10 @@ impl View3 {
         h: &TranslateHandle<3>,
         pos: Point3<f32>,
     ) -> bool {
-        let next_center = h.center(pos);
+        // Use the *current* transform, so that the grabbed model point stays
+        // under the cursor even if the view was zoomed since `begin_translate`
+        let pos_model = self.transform_point(&pos);
+        let next_center = self.center - (pos_model - h.start);
         let changed = next_center != self.center;
         self.center = next_center;
         changed
@@ -340,30 +342,6 @@ where
 {
     /// Position of the initial click, in model space
     start: OPoint<f32, Const<N>>,
-    /// Initial world-to-model transform matrix
-    initial_mat: OMatrix<
-        f32,
-        <Const<N> as DimNameAdd<Const<1>>>::Output,
-        <Const<N> as DimNameAdd<Const<1>>>::Output,
-    >,
-    /// Initial value of [`View2::center`] or [`View3::center`]
-    initial_center: OVector<f32, Const<N>>,
-}
-
-impl TranslateHandle<2> {
-    /// Returns the new value for [`View2::center`]
-    fn center(&self, pos: Point2<f32>) -> Vector2<f32> {
-        let pos_model = self.initial_mat.transform_point(&pos);
-        self.initial_center - (pos_model - self.start)
-    }
-}
-
-impl TranslateHandle<3> {
-    /// Returns the new value for [`View3::center`]
-    fn center(&self, pos: Point3<f32>) -> Vector3<f32> {
-        let pos_model = self.initial_mat.transform_point(&pos);
-        self.initial_center - (pos_model - self.start)
-    }
 }
 
 /// Stateful abstraction for a 2D canvas supporting drag and zoom
